@@ -89,7 +89,7 @@ def run(ctx):
 
     T = ctx.tier == "thorough"
     fams = TR.READ_FAMILIES
-    nmax = 9 if T else 8
+    nmax = 10 if T else 8
     idx = 0
     for n in range(1, nmax + 1):
         for par in gen.ordered_trees(n):
@@ -106,7 +106,7 @@ def run(ctx):
                 continue
             fam = fams[idx % len(fams)]
             check_universe(ctx, TR.build_ch(ch, fam), gen.parents_of(ch), {"family": fam, "state": [list(c) for c in ch]}, key=(fam, ch))
-    nrand = (5000 if T else 320) // ctx.nshards + 1
+    nrand = (40000 if T else 320) // ctx.nshards + 1
     for r in range(nrand):
         rng = ctx.rng("rand", r)
         n = rng.randint(9, 60)
@@ -117,6 +117,16 @@ def run(ctx):
         fam = fams[r % len(fams)]
         pairs = None if n <= 25 else [(rng.randrange(n), rng.randrange(n)) for _ in range(300)]
         check_universe(ctx, TR.build(par, fam), list(par), {"family": fam, "par": list(par), "kind": kind}, pairs, key=(fam, par))
+    # very deep chains: walk only needs the (iterative) root paths, so depth far beyond the other checks' bound is legal
+    if ctx.shard in (0, 1, 2, 3):
+        rng = ctx.rng("deepchain")
+        fam = ("Node", "LM", "NM", "AnyNode")[ctx.shard]
+        n = 700
+        par = tuple([None] + list(range(n - 1)))
+        nodes = TR.build(par, fam)
+        pairs = [(n - 1, 0), (0, n - 1), (n - 1, n - 1), (n - 2, 5), (400, 650)] + [(rng.randrange(n), rng.randrange(n)) for _ in range(10)]
+        ctx.count("C15.very_deep_chain")
+        check_universe(ctx, nodes, list(par), {"family": fam, "par": "chain(%d)" % n}, pairs, key=(fam, "deepchain"))
     histories(ctx)
 
 
@@ -125,7 +135,7 @@ def histories(ctx):
     from .. import trees as TR
 
     T = ctx.tier == "thorough"
-    nh = (3000 if T else 240) // ctx.nshards + 1
+    nh = (30000 if T else 240) // ctx.nshards + 1
     for h in range(nh):
         rng = ctx.rng("hist", h)
         fam = TR.READ_FAMILIES[h % len(TR.READ_FAMILIES)]
